@@ -297,7 +297,11 @@ def run(ctx, eng):
     cm.include(ctx, eng, 'C11',
                lambda o: o.rule in ('FLOW.queue', 'FLOW.ack-source') or (
                    o.rule == 'COH.apply-map' and
-                   o.desc.startswith('remote INITIAL_WINDOW_SIZE ')),
+                   o.desc.startswith('remote INITIAL_WINDOW_SIZE ')) or (
+                   # the settings a client hands over in HTTP2-Settings are
+                   # applied by the same code
+                   o.rule == 'FLOW.codec' and isinstance(o.where, str) and
+                   o.where.endswith('initiate_upgrade_connection')),
                'the peer\'s INITIAL_WINDOW_SIZE reaches the stream windows '
                'when its SETTINGS frame is acknowledged')
     flow.guard_increment_rule(ctx, eng)
